@@ -1038,14 +1038,12 @@ def directed_wbs():
 
 def route_class(route, in_block):
     """coarse label of a route for the statistics"""
-    parts = [p for p in route.split("/")]
+    parts = route.split("/")
     lab = "block" if in_block else "sheet"
-    if "sheet+data" in parts:
-        lab += "+data"
-    if "for" in parts:
-        lab += "+for"
-    if "begin_block" in parts:
-        lab += "+begin_block"
     if parts.count("insert") > 1:
         lab += "+nested"
+    if "sheet+data" in parts:
+        lab += "+datarows"
+    if "for" in parts or "begin_block" in parts:
+        lab += "+loop/begin_block"
     return lab
